@@ -6,6 +6,20 @@ package scen
 // the simulated datastore (every operation parks): "provider-manager",
 // "value-store", "keystore", "resettable-keystore".
 //
+// value-store: besides the three records the workload reads and writes, the
+// store holds a drawn backlog of further records ("backlog": 0, 2, 5 or 12)
+// that age with the rest. A sweep over such a store is in the middle of a long
+// result set when Close arrives, so that whatever serves that result set on
+// the sweep's behalf - the datastore's query machinery runs on goroutines the
+// sweep started (simds answers a query through go-datastore's own result
+// helpers, as the in-memory datastores do) - still has entries to hand over.
+// No new rule: clause "Close ... returns only after all goroutines the
+// instance started have exited" as encoded by close-early, overlap-close-early
+// and leak of c14.go, whose census counts every goroutine of the bubble that
+// harness code did not create, whichever package started it. Class exposed:
+// sweeps / scans that leave a result set open on one of their exit paths
+// (cancellation, error, early return).
+//
 // resettable-keystore, factory mode: the per-slot datastores are created by
 // the keystore through the factory, so it owns and closes them; they are
 // wrapped in c14OwnedDS (rules owned-ds-closed-in-use / owned-ds-use-after-
@@ -46,7 +60,7 @@ func init() {
 	sim.Register(&sim.Scenario{Prop: "C14", Name: "value-store", Weight: 2, Run: runC14ValueStore,
 		Real:   []string{"records.NewValueStore / StartGC / gcLoop / sweep / Close", "Put / Get in flight"},
 		Stub:   append([]string{"validator (harness rank validator)"}, stub...),
-		Faults: append(append([]string{"probe_close_during_gc", "probe_gc_disabled", "probe_gc_ctx_cancelled_first", "fault_ds_error_put", "fault_ds_error_get", "fault_ds_error_query", "fault_ds_error_delete"}, c14OverlapFaults...), c14CommonFaults...),
+		Faults: append(append([]string{"probe_close_during_gc", "probe_close_during_gc_with_backlog", "probe_gc_disabled", "probe_gc_ctx_cancelled_first", "fault_ds_error_put", "fault_ds_error_get", "fault_ds_error_query", "fault_ds_error_delete"}, c14OverlapFaults...), c14CommonFaults...),
 	})
 	sim.Register(&sim.Scenario{Prop: "C14", Name: "keystore", Weight: 2, Run: func(s *sim.Sim) { runC14Keystore(s, false) },
 		Real:   []string{"keystore.NewKeystore / worker / Close (size persisted after the worker exited)", "Put/Get/Delete/Empty/Size/ContainsPrefix/CountKeysUpTo in flight or queued behind the worker"},
@@ -163,12 +177,24 @@ func runC14ValueStore(s *sim.Sim) {
 	for i, ni := 0, s.Range("prefill", 0, 3); i < ni; i++ {
 		_ = vs.Put(context.Background(), keys[i], &recpb.Record{Key: []byte(keys[i]), Value: rankValue(1, time.Time{}, keys[i])})
 	}
+	// The size of the store is an input like any other: a backlog of further
+	// records (nobody reads or writes them during the run) that a sweep has to
+	// walk through. A sweep over a long result set is still in the middle of it
+	// when Close arrives - whatever serves that result set on the store's behalf
+	// (the datastore's query machinery runs on goroutines the sweep started) is
+	// then part of "all goroutines the instance started" (rules close-early,
+	// overlap-close-early, leak of c14.go).
+	backlog := []int{0, 2, 5, 12}[s.Draw("backlog", 4)]
+	for i := 0; i < backlog; i++ {
+		k := fmt.Sprintf("/v/backlog-%02d", i)
+		_ = vs.Put(context.Background(), k, &recpb.Record{Key: []byte(k), Value: rankValue(1, time.Time{}, k)})
+	}
 	d.Poke("/providers/xyz", []byte("foreign"))
 	if s.Chance("aged", 1, 2) {
 		s.Sleep(10*time.Minute + time.Second)
 	}
 	d.ParkOp = func(op, key string) bool { return true }
-	s.Summary["cfg"] = fmt.Sprintf("maxAge=%v gc=%v startGC=%v dsFault=%d", maxAge, gcEvery, startGC, w.dsFault)
+	s.Summary["cfg"] = fmt.Sprintf("maxAge=%v gc=%v startGC=%v dsFault=%d backlog=%d", maxAge, gcEvery, startGC, w.dsFault, backlog)
 
 	for i, ni := 0, s.Range("ops", 1, 5); i < ni; i++ {
 		k := keys[s.Draw("key", len(keys))]
@@ -186,6 +212,9 @@ func runC14ValueStore(s *sim.Sim) {
 	f.atClose = func() {
 		if c14BackgroundDSParked(s) {
 			s.Count("probe_close_during_gc")
+			if backlog >= 5 {
+				s.Count("probe_close_during_gc_with_backlog")
+			}
 		}
 		if cancelFirst {
 			s.Count("probe_gc_ctx_cancelled_first")
